@@ -219,3 +219,18 @@ Proof.
     rewrite forallb_forall in P0. apply P0. exact H.
   - unfold ctx_row_ok. rewrite E. reflexivity.
 Qed.
+
+(* the literal 15 of the exception models IS the pinned array length: the print loop of the fixed code stops at
+   min(number_parameters, EXC_INFO_LEN), an index below EXC_INFO_LEN never traps, and the query model reads EXC_INFO_LEN words *)
+Lemma exception_models_use_pinned_length :
+  (forall n, exception_print Fixed n = exc_print_loop 16 0 (Z.min n EXC_INFO_LEN)) /\
+  (forall n i limit, 0 <= i -> limit <= EXC_INFO_LEN -> exc_print_loop n i limit <> Pan PANIC_EXC_INDEX) /\
+  (forall e s, blen (exc_info e s) = EXC_INFO_LEN).
+Proof.
+  split; [reflexivity|]. split.
+  - induction n as [|n IH]; intros i limit Hi Hl; cbn [exc_print_loop]; destruct (limit <=? i) eqn:E; try discriminate.
+    apply Z.leb_gt in E. unfold EXC_INFO_LEN in Hl.
+    destruct (Z.leb_spec 15 i); [exfalso; apply (Z.lt_irrefl i); apply Z.lt_le_trans with limit; [assumption|]; apply Z.le_trans with 15; assumption|].
+    apply IH; [|assumption]. apply Z.le_trans with i; [assumption|]. apply Z.le_succ_diag_r.
+  - intros e s. unfold exc_info, blen. rewrite map_length, seq_length. reflexivity.
+Qed.
